@@ -28,5 +28,7 @@ From Chess3 Require Export Model.Uci Spec.UciSpec.
 From Chess3 Require Export Model.Vector Model.EvalU Spec.TunerSpec.
 From Chess3 Require Export Model.MateStreams.
 From Chess3 Require Export Spec.MateJudge.
+From Chess3 Require Export Model.SuccStreams.
+From Chess3 Require Export Spec.SuccJudge.
 
 Extraction Language OCaml.
